@@ -51,6 +51,7 @@ a0f137c C06 C06-unsubscribe-false-right-after-accept-response
 97dc7d4 C12 C12-repeated-id-last-answer-wins
 9f80659 C08 C08-subscribe-accept-reply-not-bounded
 f98c74e C06 C06-slot-held-after-rejection-seen
+ef665ea C07 C07-huge-frame-header-closes-connection
 LIST
 rm -rf /verif/replays
 (cd /verif/sim && cargo build --release --offline -q 2>/dev/null)
